@@ -1,7 +1,7 @@
 SPECIFICATION MCSpec
 CHECK_DEADLOCK FALSE
 CONSTANTS
-  None = None
+  None = 0
   Reqs = {1, 2, 3}
   MCMin = 1
   MCMax = 2
